@@ -101,6 +101,9 @@ pub proof fn lemma_arr_elem_decreases(v: Value, n: int)
         _ => {}
     }
 }
+pub open spec fn payload_res(v: Value, p: Option<Vec<u8>>) -> bool { match v { Value::Bytes(b) => p == Some(b), Value::Null => p is None, _ => false } }
+pub open spec fn is_bytes_or_null(v: Value) -> bool { v is Bytes || v is Null }
+pub open spec fn opt_bytes_cv(p: Option<Vec<u8>>) -> CV { match p { Some(b) => CV::Bytes(b@), None => CV::Null } }
 pub open spec fn in_i64(i: int) -> bool { i64::MIN <= i <= i64::MAX }
 
 pub assume_specification [ <i64 as TryFrom<Integer>>::try_from ] (i: Integer) -> (r: core::result::Result<i64, <i64 as TryFrom<Integer>>::Error>)
